@@ -15,7 +15,9 @@ OkpBases == {"ed25519a", "ed448a"}
 Oct(n) == IF n = 0 THEN [OctKey(0, "a", NONE, NONE) EXCEPT !.bad = 1] ELSE OctKey(n, "a", NONE, NONE)
 \* the same lengths with the algorithm named by the JWK itself (alg attribute), around each floor
 OctAttr == { <<OctKey(n, "a", a, NONE), a>> : n \in {1, 16, 31, 32, 47, 48, 63, 64, 100}, a \in HSAlgs }
-Pairs == { <<Oct(n), a>> : n \in OctLens, a \in HSAlgs } \cup OctAttr
+\* k written WITH '=' padding (the decoder tolerates it): the key is as long as its octets, not as its text
+OctPadded == { <<OctKey(n, "a", NONE, NONE) @@ [kpad |-> 1], a>> : n \in {31, 32, 46, 47, 48, 49, 62, 63, 64, 65}, a \in HSAlgs }
+Pairs == { <<Oct(n), a>> : n \in OctLens, a \in HSAlgs } \cup OctAttr \cup OctPadded
     \cup { <<AsymKey(b, 1, NONE, NONE), a>> : b \in RsaBases, a \in RsaAlgs }
     \cup { <<AsymKey(b, 1, NONE, NONE), a>> : b \in EcBases, a \in ESAlgs }
     \cup { <<AsymKey(b, 1, NONE, NONE), "EdDSA">> : b \in OkpBases }
